@@ -153,6 +153,25 @@ def dither(run, tier):
                     if not ok:
                         run.violation({"kind": "dither_is_not_x_plus_coeff_times_seeded_noise", "dtype": str(np.dtype(dt)), "n": n,
                                        "coeff": coeff, "in_place": ip, "signal": "zeros" if not x.any() else "ramp"})
+    # `coeff` is a public attribute: what counts is its value when apply() is called, not when the object was built
+    for (c1, c2) in ((1.0, 0.0), (0.0, 2.0), (1.0, 3.0)):
+        x = (np.arange(50) * 3 - 7).astype(np.float64)
+        d = pre.Dither(c1)
+        d.coeff = c2
+        np.random.seed(99)
+        got = d.apply(x)
+        np.random.seed(99)
+        want = x + c2 * np.random.normal(0, 1, (50,))
+        run.evaluations += 1
+        if not np.allclose(got, want, rtol=1e-12, atol=1e-12):
+            run.violation({"kind": "dither_ignores_current_coeff", "constructed_with": c1, "coeff_now": c2})
+        p = pre.Preemphasize(c1)
+        p.coeff = c2
+        got = p.apply(x)
+        want = x.copy()
+        want[1:] = x[1:] - c2 * x[:-1]
+        if not np.array_equal(got, want):
+            run.violation({"kind": "preemph_ignores_current_coeff", "constructed_with": c1, "coeff_now": c2})
     np.random.seed(5)
     z = pre.Dither(0.5).apply(np.zeros(200000))
     mean, std = float(z.mean()), float(z.std())
